@@ -301,6 +301,24 @@ def regression_of(q, diags, src=""):
     return out
 
 
+def agg_overlaps(q):
+    """mirror of Model/RqAgg.v agg_overlaps: ids that an Aggregate lists both in `partition` and in `compute` (C12-N18)"""
+    out = []
+
+    def walk(p):
+        for t in p:
+            if t[0] == "TAggregate":
+                out.extend(x for x in t[1] if x in t[2])
+            elif t[0] == "TLoop":
+                walk(t[1])
+    for t in q[1]:
+        if t[3][1][0] == "KPipeline":
+            walk(t[3][1][1])
+    if q[2][1][0] == "KPipeline":
+        walk(q[2][1][1])
+    return out
+
+
 def regression_text(ids):
     return "" if not ids else " -- REGRESSION: this is the class of repaired finding(s) " + ", ".join(ids)
 
@@ -403,6 +421,11 @@ def run():
         for k in c16_wf.shape(q):
             ck.stat("rq-wf", "shape:" + k)
         ck.stat("rq-wf", "wf" if not d else ("lax-only(F1)" if all(c16_wf.lax_diag(x) for x in d) else "NOT-WF"))
+        ov = agg_overlaps(q)
+        ck.stat("rq-wf", "aggregate partitions disjoint from their computes" if not ov else "AGGREGATE-PARTITIONED-BY-ITS-OWN-COLUMN")
+        if ov:
+            ck.violation("the resolver emitted an RQ whose Aggregate is partitioned by its own aggregated column(s) %s (rq_agg_ok, Model/RqAgg.v; the SQL back end "
+                         "does not terminate on this shape: C12-N18)" % ov, {"program": p, "ids": ov, "rq": rqcoq.to_coq(q)})
         if d:
             case = {"program": p, "diagnostics": [list(x) for x in d], "rq": rqcoq.to_coq(q)}
             ck.disagreement("the resolver emitted an RQ that violates the property: %s%s" % (d[:4], regression_text(regression_of(q, d, p))), case,
@@ -413,10 +436,13 @@ def run():
     if accepted and (pr["ok"] or os.path.exists(os.path.join(os.path.dirname(__file__), "..", "..", "coq", "Model", "RqWf.vo"))):
         sel = accepted if ck.thorough or len(accepted) <= 2500 else accepted[:2500]
         try:
-            vals = coq_eval(rqcoq.COQ_HEADER, ["(rq_diags %s)" % rqcoq.to_coq(q) for _, q in sel])
+            vals = coq_eval(rqcoq.COQ_HEADER.replace("Model.RqWf.", "Model.RqWf Model.RqAgg."), ["(let q := %s in (rq_diags q, agg_overlaps q))" % rqcoq.to_coq(q) for _, q in sel])
             coq_ok = True
-            for (p, q), v in zip(sel, vals):
+            for (p, q), v2 in zip(sel, vals):
                 ck.count("coq-vs-mirror", p)
+                v = v2[0] if isinstance(v2, tuple) and len(v2) == 2 else None
+                if v is not None and list(v2[1]) != agg_overlaps(q):
+                    ck.violation("python mirror of agg_overlaps disagrees with the Coq definition", {"program": p, "coq": str(v2[1])})
                 if v is None or canon_coq(v) != [tuple(x) for x in py[p]]:
                     ck.violation("python mirror of rq_wf disagrees with the Coq definition (bug in the check, or the model changed)",
                                  {"program": p, "coq": str(v), "mirror": [list(x) for x in py[p]]})
@@ -483,10 +509,11 @@ def run():
         try:
             # both verdicts of one trace in one expression (the term is parsed once).  The frames of OEndTable / OEndInline are
             # computed by the machine from the lineage (push_select_m) and compared with what push_select returned (BFrame)
-            both = coq_eval(c16_trace.COQ_HEADER, ["(let l := %s in let q := %s in (replay_l_verdict false l q, replay_l_verdict true l q, first_out_of_scope_read init l 0))" % (t, qc) for _, t, qc, _, _ in cases]) if cases else []
+            both = coq_eval(c16_trace.COQ_HEADER, ["(let l := %s in let q := %s in (replay_l_verdict false l q, replay_l_verdict true l q, first_out_of_scope_read init l 0, entries_verdict l q))" % (t, qc) for _, t, qc, _, _ in cases]) if cases else []
             vals = [b[0] if isinstance(b, tuple) else None for b in both]
             strict = dict((c[0], b[1]) for c, b in zip(cases, both) if isinstance(b, tuple))
             entry = dict((c[0], b[2]) for c, b in zip(cases, both) if isinstance(b, tuple))
+            entv = dict((c[0], b[3]) for c, b in zip(cases, both) if isinstance(b, tuple))
         except RuntimeError as ex:
             vals = None
             ck.coverage["trace_eval_error"] = str(ex)[-600:]
@@ -511,6 +538,21 @@ def run():
         for ((p, term, qc, nops, a), _), sv in zip(agreeing, svals):
             ck.count("strict-machine", p)
             d = py[p]
+            # the entry discipline (Model/LowererEntries.v): scope of every read + "ColumnRefs within entries".  By theorem it implies the
+            # strict replay; how often it also holds of a well-formed program is the completeness of the explanation
+            ev_ = entv.get(p)
+            if have_lookups and ev_ is not None:
+                if ev_ == 0 and sv != 0:
+                    ck.stat("entry-discipline", "CONTRADICTS-THEOREM")
+                    ck.violation("a trace passes the entry discipline but not the strict machine: contradicts entry_discipline_implies_strict_step", {"program": p, "strict_verdict": sv})
+                elif ev_ == 0:
+                    ck.stat("entry-discipline", "holds (every id an expression got was read in scope)")
+                elif sv == 0:
+                    kinds = c16_trace.op_kinds(a["ops"])
+                    ck.stat("entry-discipline", "well-formed program, discipline refused at: " + (kinds[ev_ - 1] if isinstance(ev_, int) and 0 < ev_ <= len(kinds) else "?"))
+                else:
+                    ck.stat("entry-discipline", "refused, as the strict machine (known finding)")
+                ck.count("entry-discipline", p)
             if sv == 0 and not d:
                 ck.stat("strict-machine", "strict-replay-ok = rq_wf")
             elif sv != 0 and d:
